@@ -342,9 +342,55 @@ fn asserts(r: &mut Report) {
     }
 }
 
+/// the operands of the comparison macros are ordinary expressions: each is evaluated exactly once
+/// (`a == b` / `a.cmp(&b)` evaluate each operand once), whatever the macro does with the value
+fn argument_expressions(r: &mut Report) {
+    use core::cell::Cell;
+    // the second operand of every pair below goes through `t2`: the trace of `op(tk(a), t2(b))` is 12
+    fn tk<T>(c: &Cell<u32>, v: T) -> T {
+        c.set(c.get() * 10 + 1);
+        v
+    }
+    fn t2<T>(c: &Cell<u32>, v: T) -> T {
+        c.set(c.get() * 10 + 2);
+        v
+    }
+    macro_rules! once {
+        ($name:expr, $c:ident, $k:expr, $s:expr) => {{
+            let $c = Cell::new(0u32);
+            let k = ($k, $c.get());
+            let $c = Cell::new(0u32);
+            let s = ($s, $c.get());
+            r.ev("operand-expressions-evaluated-once-in-order");
+            r.eq($name, || "side-effecting operand expressions".to_string(), &k, &s);
+        }};
+    }
+    for (a, b) in [(1u32, 2u32), (2, 2), (3, 2)] {
+        once!("const_eq!(operands once)", c, const_eq!(tk(&c, a), t2(&c, b)), tk(&c, a) == t2(&c, b));
+        once!("const_cmp!(operands once)", c, const_cmp!(tk(&c, a), t2(&c, b)), tk(&c, a).cmp(&t2(&c, b)));
+        let (oa, ob) = (Some(a), if b == 2 { None } else { Some(b) });
+        once!("const_eq!(option operands once)", c, const_eq!(tk(&c, oa), t2(&c, ob)), tk(&c, oa) == t2(&c, ob));
+        once!("const_cmp!(option operands once)", c, const_cmp!(tk(&c, oa), t2(&c, ob)), tk(&c, oa).cmp(&t2(&c, ob)));
+        once!("const_eq_for!(option; operands once)", c, const_eq_for!(option; tk(&c, oa), t2(&c, ob)), tk(&c, oa) == t2(&c, ob));
+        once!("const_cmp_for!(option; operands once)", c, const_cmp_for!(option; tk(&c, oa), t2(&c, ob)), tk(&c, oa).cmp(&t2(&c, ob)));
+        let (sa, sb): (&[u32], &[u32]) = (&[a, 1], &[b, 1]);
+        once!("const_eq!(slice operands once)", c, const_eq!(tk(&c, sa), t2(&c, sb)), tk(&c, sa) == t2(&c, sb));
+        once!("const_cmp!(slice operands once)", c, const_cmp!(tk(&c, sa), t2(&c, sb)), tk(&c, sa).cmp(t2(&c, sb)));
+        once!("const_eq_for!(slice; operands once)", c, const_eq_for!(slice; tk(&c, sa), t2(&c, sb)), tk(&c, sa) == t2(&c, sb));
+        once!("const_eq_for!(slice; operands once, key)", c, const_eq_for!(slice; tk(&c, sa), t2(&c, sb), |x| *x), tk(&c, sa) == t2(&c, sb));
+        once!("const_cmp_for!(slice; operands once)", c, const_cmp_for!(slice; tk(&c, sa), t2(&c, sb)), tk(&c, sa).cmp(t2(&c, sb)));
+        let (ra, rb) = (a..5, b..5);
+        once!("const_eq_for!(range; operands once)", c, const_eq_for!(range; tk(&c, ra.clone()), t2(&c, rb.clone())), tk(&c, ra.clone()) == t2(&c, rb.clone()));
+        let (ia, ib) = (a..=5, b..=5);
+        once!("const_eq_for!(range_inclusive; operands once)", c, const_eq_for!(range_inclusive; tk(&c, ia.clone()), t2(&c, ib.clone())), tk(&c, ia.clone()) == t2(&c, ib.clone()));
+        once!("const_eq!(str operands once)", c, const_eq!(tk(&c, "ab"), t2(&c, if a == b { "ab" } else { "b" })), tk(&c, "ab") == t2(&c, if a == b { "ab" } else { "b" }));
+        once!("konst::min!/max! (operands once)", c, (konst::min!(tk(&c, a), t2(&c, b)), konst::max!(tk(&c, a), t2(&c, b))), (tk(&c, a).min(t2(&c, b)), tk(&c, a).max(t2(&c, b))));
+    }
+}
+
 pub fn run(cfg: &Cfg) -> (&'static str, Report, String, String) {
     // 14 primitive types spread over the thread pool
-    let rep = par_for(cfg, 20, |i, r| match i {
+    let rep = par_for(cfg, 21, |i, r| match i {
         0 => prim!(r, cfg, u8, "u8", int_vals!(u8), [1u8, 5, 255], cmp_u8, eq_option_u8, cmp_option_u8, eq_slice_u8, cmp_slice_u8, eq_option_slice_u8, cmp_option_slice_u8),
         1 => prim!(r, cfg, u16, "u16", int_vals!(u16), [1u16, 5, u16::MAX], cmp_u16, eq_option_u16, cmp_option_u16, eq_slice_u16, cmp_slice_u16, eq_option_slice_u16, cmp_option_slice_u16),
         2 => prim!(r, cfg, u32, "u32", int_vals!(u32), [1u32, 5, u32::MAX], cmp_u32, eq_option_u32, cmp_option_u32, eq_slice_u32, cmp_slice_u32, eq_option_slice_u32, cmp_option_slice_u32),
@@ -390,6 +436,7 @@ pub fn run(cfg: &Cfg) -> (&'static str, Report, String, String) {
         17 => others(r),
         18 => asserts(r),
         19 => long_operands(r, cfg),
+        20 => argument_expressions(r),
         _ => {}
     });
     (
